@@ -620,6 +620,32 @@ fn random_eval_case(report: &Report, sink: &Sink, i: u64) {
 // child-process probes: calls that may not terminate are never made in the checking process
 
 fn probe_main(name: &str) -> i32 {
+    if name == "heavy_timing" {
+        let t = std::time::Instant::now();
+        let mut a = RowIdTreeMap::new();
+        a.insert_fragment(3);
+        let mut b = RowIdTreeMap::new();
+        b.insert(addr(3, 7));
+        let d = a.clone() - b.clone();
+        println!("sub {:?}", t.elapsed());
+        let bm = d.get_fragment_bitmap(3).unwrap();
+        println!("len {} {:?}", bm.len(), t.elapsed());
+        println!("rc {} {:?}", bm.range_cardinality(8..=u32::MAX), t.elapsed());
+        let _ = d.row_ids().map(|_| ());
+        println!("row_ids {:?}", t.elapsed());
+        let mut buf = vec![];
+        d.serialize_into(&mut buf).unwrap();
+        println!("ser {} {:?}", buf.len(), t.elapsed());
+        let c = d.clone();
+        println!("clone {:?}", t.elapsed());
+        drop(c);
+        let mut pp = Pair::new();
+        pp.real = d;
+        pp.model = IvSet::fragment(3).minus(&IvSet::interval(addr(3, 7), addr(3, 7)));
+        pp.touched.insert(3);
+        println!("check {:?} {:?}", pp.check("x").is_ok(), t.elapsed());
+        return 0;
+    }
     let mut m = RowIdTreeMap::new();
     let (n, want): (u64, Vec<u64>) = match name {
         "range_to_u64_max" => (m.insert_range(u64::MAX - 3..=u64::MAX), (u64::MAX - 3..=u64::MAX).collect()),
@@ -721,8 +747,9 @@ fn selftest(args: &Args) -> i32 {
     // 1. corrupted `selected` observation
     let sink = Sink::collecting();
     CORRUPT_SELECTED.store(small.u[1], Ordering::Relaxed);
+    CORRUPT_ON.store(true, Ordering::Relaxed);
     exhaustive_masks(&report, &sink, &small);
-    CORRUPT_SELECTED.store(u64::MAX, Ordering::Relaxed);
+    CORRUPT_ON.store(false, Ordering::Relaxed);
     let caught1 = sink.n_signatures() > 0;
     println!("SELFTEST corrupted-selected caught={caught1}");
     ok &= caught1;
@@ -771,7 +798,9 @@ pub fn run(args: &Args) -> i32 {
     report.set("small_universe", json!(format!("{small:?}")));
     let heavy_cap = args.tier.pick(4, 200);
     exhaustive_maps(&report, &sink, &small, heavy_cap);
+    report.set("t_maps_s", json!(report.elapsed_s()));
     exhaustive_masks(&report, &sink, &small);
+    report.set("t_masks_s", json!(report.elapsed_s()));
     let complete = exhaustive_evaluate(&report, &sink, &small, &|| !report.time_left());
     report.exhaustive(complete);
     if !complete {
